@@ -181,7 +181,9 @@ func formatOffset(position int64) eventbus.Offset {
 func (s *SQLiteStore) Append(ctx context.Context, event *eventbus.Event) (eventbus.Offset, error) {
 	start := time.Now()
 
-	result, err := s.appendStmt.ExecContext(ctx, event.Type, event.Data, event.Timestamp)
+	// Store the instant in UTC: the driver writes a time.Time in its String() form,
+	// which cannot be read back for zones without a regular abbreviation
+	result, err := s.appendStmt.ExecContext(ctx, event.Type, event.Data, event.Timestamp.UTC())
 	if err != nil {
 		if s.metricsHook != nil {
 			s.metricsHook.OnAppend(time.Since(start), err)
